@@ -41,18 +41,25 @@ pub fn compress(c: Comp, data: &[u8]) -> Vec<u8> {
 }
 
 /// Pattern kinds, relative to the scratch directory (which contains no "{}").
-const PATTERNS: [&str; 5] = [
+/// A value that itself contains "{}": the index goes into the *pattern's* placeholders only.
+pub const ENV_BRACES_NAME: &str = "L4V_C07_BR";
+pub const ENV_BRACES_VALUE: &str = "br{}ace";
+
+const PATTERNS: [&str; 7] = [
     "app.{}.log",
     "arch/{}/app.log",
     "arch/{}/app.{}.log",
     "$ENV{L4V_C07_DIR}/app.{}.log",
     "deep/er/app-{}",
+    "$ENV{L4V_C07_BR}/app.{}.log",
+    "x-$ENV{L4V_C07_BR}-{}.log",
 ];
 
 pub fn archive_rel(pattern_rel: &str, idx: u64) -> String {
     pattern_rel
         .replace("{}", &idx.to_string())
         .replace(&format!("$ENV{{{}}}", ENV_NAME), ENV_VALUE)
+        .replace(&format!("$ENV{{{}}}", ENV_BRACES_NAME), ENV_BRACES_VALUE)
 }
 
 fn gen_content(rng: &mut Rng, tag: &str) -> Vec<u8> {
@@ -164,6 +171,23 @@ fn one_case(rep: &mut Report, rng: &mut Rng, idx: u64) {
     let mut rolled: Vec<Vec<u8>> = vec![];
     let mut before: Snapshot = snapshot(&root).unwrap();
     for k in 0..rolls {
+        // now and then somebody removes the archive directory between two rolls
+        if k > 0 && rng.chance(1, 8) {
+            if let Some((top, _)) = c.pattern_rel.split_once('/') {
+                let top = archive_rel(top, 0);
+                if !top.contains("app") && std::fs::remove_dir_all(root.join(&top)).is_ok() {
+                    rep.count("external_removals_of_the_archive_directory", 1);
+                    let prefix = format!("{}/", top);
+                    let gone: Vec<u64> = w.keys().cloned().filter(|i| archive_rel(&c.pattern_rel, *i).starts_with(&prefix)).collect();
+                    for i in gone {
+                        w.remove(&i);
+                    }
+                    // the recency statement only speaks about what was rolled since
+                    rolled.clear();
+                    before = snapshot(&root).unwrap();
+                }
+            }
+        }
         let content = gen_content(rng, &format!("roll{}", k));
         std::fs::write(&active, &content).unwrap();
         let r = trap::catch(|| roller.roll(Path::new(&active)));
@@ -295,6 +319,7 @@ fn one_case(rep: &mut Report, rng: &mut Rng, idx: u64) {
 
 pub fn run(rep: &mut Report) {
     std::env::set_var(ENV_NAME, ENV_VALUE);
+    std::env::set_var(ENV_BRACES_NAME, ENV_BRACES_VALUE);
     rep.rule = "Roll::roll called directly on FixedWindowRoller / DeleteRoller: base in {0,1,3,4e9}, count in {0,1,2,3,4,7}, patterns with the \
         index in the file name / in a directory component / repeated / behind $ENV{..} / .gz / .zst, 0-12 successive rolls of \
         empty, small, multi-KiB and 200 KiB contents, initial states empty / full window / gaps / archives beyond the window / \
